@@ -17,4 +17,4 @@ Extraction "model.ml" init_state step run get_prev add_entry update_entry escape
   apply_matchers_snapshot parse
   valid_script groups_of_script report_of_script unified_of_script read_report report_read_of
   groups_of_script_n unified_of_script_n report_of_script_n
-  re_match test_skipped_run go_selects.
+  re_match test_skipped_run file_skipped_run go_selects.
